@@ -28,9 +28,10 @@ import pyglove as pg
 from pyvc.bounded import Recorder, rng
 
 from bounded.c11_enumeration import (
-    C, CH, CU, FL, LOCS, ONE, SP, S2, S22, S3, SF, SM, SN, accepts, build,
-    count_members, depth_of, dsrc, flat, gen_dps, handpicked_roots, is_finite,
-    leaf, members, mk, shape, src, tkey, wit)
+    C, CH, CU, FL, FLAGS, LOCS, ONE, SP, S2, S22, S3, SF, SM, SN, accepts,
+    build, corruptions, count_members, depth_of, dsrc, flat, gen_dps,
+    handpicked_roots, has_kind, is_finite, leaf, members, mk, shape, src, tkey,
+    why_not_dp, wit)
 
 PROP = 'C12'
 
@@ -70,6 +71,9 @@ def named_specs():
       CH(2, [S2, C, S3], True, True, name='r'),
       leaf(3, name='solo', lits=('u', 'v', 'w')),
       FL(0.5, 1.5, 'ff'),
+      # float decisions whose text needs 17 digits / an exponent
+      SP(FL(0.1 + 0.2, 4.0 / 3.0, 'g'), FL(1e-07, 3e-07), leaf(2)),
+      SP(ONE([SP(FL(-1e+20, 1.5e+20)), C]), FL(-2.0 / 3.0, 2.5e-300)),
   ]
 
 
@@ -425,7 +429,7 @@ def _dict_diff(got, want):
   return '; '.join(sorted(out)[:4])
 
 
-def check_dict_content(rec, m, spec, t, d, rs, combos):
+def check_dict_content(rec, m, spec, t, d, rs, combos, tag=''):
   key0 = (src(m), t)
   clash = name_clash(rs)
   for kt, vt, mkk, inc in combos:
@@ -456,12 +460,12 @@ def check_dict_content(rec, m, spec, t, d, rs, combos):
               f'got = {{(k if isinstance(k, str) else k.id.path): nv(v) '
               f'for k, v in {call}.items()}}\n'
               f'assert got == {want2!r}, got')
-    rec.case(f'to_dict/content/key={kt}/value={vt}/multi={mkk}',
+    rec.case(f'to_dict/content/key={kt}/value={vt}/multi={mkk}{tag}',
              (key0, inc), ok, msg,
              wit(m, f'd = {bind_src(t)}\n' + wtxt))
 
 
-def check_dict_roundtrip(rec, m, spec, t, d, combos):
+def check_dict_roundtrip(rec, m, spec, t, d, combos, tag=''):
   key0 = (src(m), t)
   ints = int_literals(m)
   for kt, vt, mkk, inc in combos:
@@ -477,7 +481,7 @@ def check_dict_roundtrip(rec, m, spec, t, d, combos):
     except Exception as e:  # pylint: disable=broad-except
       ok, back = False, None
       msg = f'from_dict({call}) raised {type(e).__name__}: {e}'[:400]
-    rec.case(f'from_dict/roundtrip/key={kt}/value={vt}/multi={mkk}',
+    rec.case(f'from_dict/roundtrip/key={kt}/value={vt}/multi={mkk}{tag}',
              (key0, inc), ok, msg, wit(
                  m, f'd = {bind_src(t)}\n'
                  f'x = D.from_dict(dict({call}), spec{kw})\nassert x == d, x'))
@@ -592,7 +596,7 @@ def check_lookups(rec, m, spec, t, d, rs):
 def drv_numbers_and_json(tier, seed):
   rec = Recorder(
       PROP, 'to_numbers / from_numbers / nested numbers / JSON are lossless',
-      scope=('13 named/literal/conditional/float/custom specs + 32 hand-picked '
+      scope=('15 named/literal/conditional/float/custom specs + 32 hand-picked '
              '+ 6 (thorough 60) seeded random conditional specs of weight<=4; '
              'specs (multi-element roots, inlined multi-choices, depth<=3, bare '
              'decision-point roots); members: all up to a cap (quick 10, '
@@ -632,6 +636,7 @@ def drv_dict_views(tier, seed):
   budget = 40 if tier == 'quick' else 540
   rot = 0
   specs = view_specs(tier, r)
+  n_named = len(named_specs())
   # round-robin over specs so that a time cut never starves a spec class
   work = []
   for si, m in enumerate(specs):
@@ -650,7 +655,7 @@ def drv_dict_views(tier, seed):
     rs, _ = records(m, spec, t, d)
     check_dict_content(rec, m, spec, t, d, rs, COMBOS)
     check_lookups(rec, m, spec, t, d, rs)
-    if j == 0 and full_budget > 0 and (si < 13):
+    if j == 0 and full_budget > 0 and (si < n_named):
       full_budget -= 1
       combos = COMBOS
     else:
@@ -728,6 +733,23 @@ def alignment_specs():
   ]
 
 
+def audit_dna(rec, m, spec, x, source, make_x):
+  """x: pg.DNA handed out by `source`; valid, bound and aligned?"""
+  t = shape(x)
+  if not accepts(m, t):
+    rec.case(f'aligned/{source}/output-is-valid', (src(m), t), False,
+             f'{source} returned {t!r}, not a valid DNA of the spec',
+             wit(m, make_x + 'spec.validate(D(x.to_json(type_info=False)))\n'
+                 f'assert x.to_numbers() != {flat(t)!r}'))
+    return False
+  if x.spec is None:
+    rec.case(f'aligned/{source}/bound', (src(m), t), False,
+             f'{source} returned an unbound DNA', wit(
+                 m, make_x + 'assert x.spec is not None'))
+    return False
+  return check_alignment(rec, m, spec, t, x, source, make_x)
+
+
 def _members_of_float_spec(m, r, n):
   mem = members(m)
   return mem if len(mem) <= n else r.sample(mem, n)
@@ -753,20 +775,7 @@ def drv_alignment(tier, seed):
   specs = alignment_specs()
 
   def audit(m, spec, x, source, make_x):
-    """x: pg.DNA handed out by `source`."""
-    t = shape(x)
-    if not accepts(m, t):
-      rec.case(f'aligned/{source}/output-is-valid', (src(m), t), False,
-               f'{source} returned {t!r}, not a valid DNA of the spec',
-               wit(m, make_x + 'spec.validate(D(x.to_json(type_info=False)))\n'
-                   f'assert x.to_numbers() != {flat(t)!r}'))
-      return False
-    if x.spec is None:
-      rec.case(f'aligned/{source}/bound', (src(m), t), False,
-               f'{source} returned an unbound DNA', wit(
-                   m, make_x + 'assert x.spec is not None'))
-      return False
-    return check_alignment(rec, m, spec, t, x, source, make_x)
+    return audit_dna(rec, m, spec, x, source, make_x)
 
   for rnd in range(2 if tier == 'quick' else 3):
     for si, m in enumerate(specs):
@@ -893,7 +902,503 @@ def drv_alignment(tier, seed):
   return rec.result()
 
 
-DRIVERS = [drv_numbers_and_json, drv_dict_views, drv_alignment]
+# ---------------------------------------------------------------------------
+# Literal value forms (the text of the 'literal' / 'choice_and_literal' styles)
+# ---------------------------------------------------------------------------
+
+# Every form is a class of literal values a specification may legally carry
+# (str / int / float).  The dictionary views that show literals must still
+# rebuild the DNA, whatever the literal looks like.
+LITERAL_FORMS = [
+    ('float-17-digits', (0.1 + 0.2, 1.0 / 3.0, 2.0 / 3.0)),
+    ('float-exponent', (1e-07, 1.5e+20, 2.5e-300)),
+    ('float-negative-zero-integral', (-0.5, 0.0, 3.0)),
+    ('float-7th-decimal', (0.1234567, 0.1234568, 1.0000001)),
+    ('int-small-and-negative', (10, -3, 0)),
+    ('int-large', (2 ** 40, -2 ** 33, 7)),
+    ('mixed-types', ('a', 1, 0.5)),
+    ('str-brackets-slashes', ('q (r)', 'a/b', 'x) (y')),
+    ('str-whitespace-empty', ('', ' ', ' lead trail ')),
+    ('str-number-looking', ('1', '0.5', '-2')),
+    ('str-unicode-control', ('é日本', 'a\nb', '\t')),
+    ('str-fraction-looking', ('1/2', '1/4', '3/4')),
+]
+
+LITERAL_VALUE_TYPES = ['choice', 'literal', 'choice_and_literal']
+LITERAL_COMBOS = [c for c in COMBOS if c[1] in LITERAL_VALUE_TYPES]
+
+
+def literal_specs(lits):
+  l3 = tuple(lits)
+  return [
+      # non-distinct multi-choice (a literal may repeat in the parent list)
+      SP(leaf(3, 2, False, False, name='m', lits=l3), leaf(2)),
+      # literals on a conditional choice, on a point inside it and on a sorted
+      # multi-choice
+      SP(ONE([SP(leaf(3, lits=l3), FL(0.0, 1.0)), C], lits=l3[:2]),
+         leaf(3, 2, True, True, lits=l3)),
+  ]
+
+
+def drv_literal_forms(tier, seed):
+  rec = Recorder(
+      PROP, 'dictionary views with literal values of every form are lossless',
+      scope=('12 classes of literal values (floats needing 17 digits / an '
+             'exponent / a 7th decimal, negative, zero and integral floats, '
+             'small, negative and large ints, mixed types, strings with '
+             'brackets and slashes, whitespace / empty, number looking, '
+             'unicode / control characters, fraction looking) x 2 specs '
+             '(non-distinct named multi-choice; conditional + nested + sorted '
+             'multi-choice) x members (quick 4, thorough 16 per spec): '
+             'to_dict content and from_dict round trip under 3 key types x '
+             "value types choice/literal/choice_and_literal x 3 "
+             'multi_choice_key x include_inactive (quick: content under one '
+             'include_inactive setting per member; round trip under every key '
+             'type x value type with one (multi key, inactive) pair per '
+             'member); parameters() / from_parameters round trip'))
+  r = rng(seed, 'c12.literals')
+  cap = 4 if tier == 'quick' else 16
+  t0 = time.time()
+  budget = 35 if tier == 'quick' else 400
+  for form, lits in LITERAL_FORMS:
+    tag = f'/lits={form}'
+    for si_, m in enumerate(literal_specs(lits)):
+      if time.time() - t0 > budget:
+        break
+      spec = build(m)
+      for j, t in enumerate(sample_members(m, cap, r)):
+        d = mk(t).use_spec(spec)
+        rs, _ = records(m, spec, t, d)
+        # LITERAL_COMBOS is ordered key type x value type x multi key x
+        # inactive: member j takes every key type x value type with the j-th
+        # (multi key, inactive) pair for the round trip (all pairs in the
+        # thorough tier) and one `inactive` setting for the content.
+        quick = tier == 'quick'
+        check_dict_content(
+            rec, m, spec, t, d, rs,
+            [c for i, c in enumerate(LITERAL_COMBOS)
+             if not quick or i % 2 == j % 2], tag)
+        check_dict_roundtrip(
+            rec, m, spec, t, d,
+            [c for i, c in enumerate(LITERAL_COMBOS)
+             if not quick or i % 6 == (j + si_) % 6], tag)
+        for use_lit in (False, True):
+          call = f'd.parameters(use_literal_values={use_lit})'
+          try:
+            back = pg.DNA.from_parameters(
+                dict(d.parameters(use_literal_values=use_lit)), spec,
+                use_literal_values=use_lit)
+            ok = same(shape(back), t) and back == d
+            msg = f'from_parameters({call}) = {shape(back)!r}, want {t!r}'
+          except Exception as e:  # pylint: disable=broad-except
+            ok = False
+            msg = f'from_parameters({call}) raised {type(e).__name__}: {e}'[:400]
+          rec.case(f'parameters/roundtrip/use_literal_values={use_lit}{tag}',
+                   (src(m), t), ok, msg, wit(
+                       m, f'd = {bind_src(t)}\n'
+                       f'x = D.from_parameters(dict({call}), spec, '
+                       f'use_literal_values={use_lit})\nassert x == d, x'))
+  return rec.result()
+
+
+# ---------------------------------------------------------------------------
+# Search operators over the matrix of multi-choice kinds
+# ---------------------------------------------------------------------------
+
+
+def matrix_specs(tier):
+  """Multi-choices of every distinct/sorted kind with >= 3 sub-choices."""
+  out = []
+  for distinct, srt in FLAGS:
+    out += [
+        SP(leaf(3, 2, distinct, srt), FL(0.0, 1.0)),
+        SP(leaf(4, 3, distinct, srt), leaf(2)),
+        # candidates with nested decision points (equal indices may still
+        # carry different sub-trees)
+        SP(CH(3, [S2, C, SM], distinct, srt)),
+        # a multi-choice inlined below a conditional choice
+        SP(ONE([SP(leaf(4, 3, distinct, srt)), C]), FL(0.0, 1.0)),
+    ]
+    if tier != 'quick':
+      out += [
+          SP(leaf(4, 4, distinct, srt)),
+          SP(leaf(5, 3, distinct, srt), leaf(2)),
+          CH(3, [S2, C, S3, C], distinct, srt),
+          SP(CH(2, [SP(leaf(3, 3, distinct, srt)), C, C], True, False)),
+      ]
+  return out
+
+
+def _repeats(t):
+  """Number of equal-valued sibling pairs anywhere in the tree."""
+  vals = [c[0] for c in t[1]]
+  n = sum(1 for i in range(len(vals)) for j in range(i)
+          if vals[i] == vals[j] and vals[i] is not None)
+  return n + sum(_repeats(c) for c in t[1])
+
+
+def matrix_starts(m, r, n):
+  """Members with the most equal-valued siblings first, then a sample."""
+  mem = members(m)
+  if len(mem) <= n:
+    return mem
+  by_rep = sorted(mem, key=lambda t: -_repeats(t))
+  head = by_rep[:max(1, n // 2)] if _repeats(by_rep[0]) else []
+  rest = [t for t in mem if t not in head]
+  return head + r.sample(rest, n - len(head))
+
+
+def drv_operator_matrix(tier, seed):
+  rec = Recorder(
+      PROP, 'search operators keep every node aligned, for every kind of '
+      'multi-choice',
+      scope=('multi-choices of all 4 distinct/sorted kinds x 4 layouts (3 '
+             'choose 2 + float, 4 choose 3 + choice, 3 of conditional '
+             'candidates, 4 choose 3 below a conditional choice; thorough: 4 '
+             'more incl. 4 of 4, 5 choose 3, bare root, nested multi-choice); '
+             'starts: members with most equal-valued siblings + seeded sample '
+             '(quick 5, thorough 12); operators: mutators.Uniform restricted '
+             '(where=) to each active decision point in turn x seeds (quick '
+             '3, thorough 6), unrestricted Uniform, Swap, and the 9 '
+             'recombinators with 2 seeded partners: node.spec identity per '
+             'position + to_dict vs expectation from raw numbers'))
+  evo = _evo()
+  r = rng(seed, 'c12.matrix')
+  t0 = time.time()
+  budget = 35 if tier == 'quick' else 500
+  n_start = 5 if tier == 'quick' else 12
+  n_seed = 3 if tier == 'quick' else 6
+  for m in matrix_specs(tier):
+    if time.time() - t0 > budget:
+      break
+    spec = build(m)
+    mem = members(m)
+    for t in matrix_starts(m, r, n_start):
+      d = mk(t).use_spec(spec)
+      base = f'd = {bind_src(t)}\n'
+      rs, _ = records(m, spec, t, d)
+      # ---- Uniform mutation at each active decision point -----------------
+      for r_ in rs:
+        if not r_.active:
+          continue
+        path = r_.dp.id.path
+        wsrc = ('lambda n: isinstance(n.spec, g.DecisionPoint) and '
+                f'n.spec.id.path == {path!r}')
+        for k in range(n_seed):
+          s = r.randrange(1000)
+          osrc = f'pg.evolution.mutators.Uniform(where={wsrc}, seed={s})'
+          mut = evo.mutators.Uniform(
+              where=lambda n, p_=path: (isinstance(n.spec, pg.geno.DecisionPoint)
+                                        and n.spec.id.path == p_), seed=s)
+          try:
+            x = mut.mutate(d)
+          except Exception as e:  # pylint: disable=broad-except
+            rec.case('aligned/mutators.Uniform/raises', (src(m), t, path), False,
+                     f'Uniform(where={path!r}) raised {type(e).__name__}: {e}'[:300],
+                     wit(m, base + f'{osrc}.mutate(d)'))
+            continue
+          audit_dna(rec, m, spec, x, 'mutators.Uniform',
+                    base + f'x = {osrc}.mutate(d)\n')
+      # ---- unrestricted mutators and recombinators ------------------------
+      for k in range(n_seed):
+        opseed = r.randrange(1000)
+        for name, arity, fn, osrc in operators(opseed):
+          if arity == 1:
+            inputs, itxt = [d], '[d]'
+          elif k < 2:
+            o = r.choice(mem)
+            inputs, itxt = [d, mk(o).use_spec(spec)], f'[d, {bind_src(o)}]'
+          else:
+            continue
+          try:
+            outs = fn(inputs)
+          except Exception as e:  # pylint: disable=broad-except
+            rec.case(f'aligned/{name}/raises', (src(m), t, itxt), False,
+                     f'{name} raised {type(e).__name__}: {e}'[:300],
+                     wit(m, base + f'{osrc}({itxt})'))
+            continue
+          outs = sorted(outs, key=lambda z: repr(z.to_numbers()))
+          for i, x in enumerate(outs[:2]):
+            audit_dna(rec, m, spec, x, name,
+                      base + f'x = sorted({osrc}({itxt}), key=lambda z: '
+                      f'repr(z.to_numbers()))[{i}]\n')
+  return rec.result()
+
+
+# ---------------------------------------------------------------------------
+# Binding history: what happened to the object before it was (re)bound
+# ---------------------------------------------------------------------------
+
+
+def history_specs():
+  a = alignment_specs()
+  n = named_specs()
+  return [
+      # several root elements, the later ones conditional
+      SP(leaf(3, name='o', lits=('sgd', 'adam', 'lamb')), FL(0.0, 1.0, 'lr'),
+         ONE([SP(leaf(3, name='k', lits=(1, 3, 5))), C], name='blk')),
+      a[0], a[3], a[4], a[5], a[6], a[7], a[8], a[9], a[10],
+      n[2], n[3], n[6], n[7],
+  ]
+
+
+def widen(m):
+  """A different spec (one more candidate, wider floats, other names) that
+  accepts every member of m."""
+  if m[0] == 'space':
+    return SP(*[widen(e) for e in m[1]])
+  if m[0] == 'choices':
+    _, k, cands, distinct, srt, name, lits = m
+    return ('choices', k, tuple(widen(c) for c in cands) + (C,), distinct, srt,
+            None if name is None else name + '_w',
+            None if lits is None else tuple(lits) + ('extra',))
+  if m[0] == 'float':
+    return ('float', m[1] - 1.0, m[2] + 1.0, m[3])
+  return m
+
+
+def diff_path(a, b, prefix=()):
+  """Path of the smallest sub-tree that contains all differences, or None."""
+  if tkey(a) == tkey(b):
+    return None
+  if tkey((a[0], ())) != tkey((b[0], ())) or len(a[1]) != len(b[1]):
+    return prefix
+  diffs = [i for i in range(len(a[1])) if tkey(a[1][i]) != tkey(b[1][i])]
+  if len(diffs) == 1:
+    return diff_path(a[1][diffs[0]], b[1][diffs[0]], prefix + (diffs[0],))
+  return prefix
+
+
+def _get_tree(node, path):
+  for i in path:
+    node = node[1][i]
+  return node
+
+
+def _node_src(path):
+  return 'x' + ''.join(f'.children[{i}]' for i in path)
+
+
+def _node_at(d, path):
+  for i in path:
+    d = d.children[i]
+  return d
+
+
+def edit_to(d, cur, want, style):
+  """Edits pg.DNA d (tree `cur`) in place so that its tree becomes `want`.
+
+  Returns the source text of the edit (on variable x) or None if the style
+  does not apply.  Only symbolic rebind on the object is used."""
+  p = diff_path(cur, want)
+  if p is None:
+    return None
+  a, b = _get_tree(cur, p), _get_tree(want, p)
+  nd = _node_at(d, p)
+  if style == 'replace-node':
+    if not p:
+      return None
+    key = '.'.join(f'children[{i}]' for i in p)
+    d.rebind({key: mk(b)})
+    return f'x.rebind({{{key!r}: {dsrc(b)}}})\n'
+  if style == 'in-place':
+    kw, txt = {}, []
+    if tkey((a[0], ())) != tkey((b[0], ())):
+      kw['value'] = b[0]
+      txt.append(f'value={b[0]!r}')
+    if tkey((None, a[1])) != tkey((None, b[1])):
+      kw['children'] = [mk(c) for c in b[1]]
+      txt.append('children=[' + ', '.join(dsrc(c) for c in b[1]) + ']')
+    nd.rebind(**kw)
+    return f'{_node_src(p)}.rebind({", ".join(txt)})\n'
+  if style == 'reorder-bound-children':
+    # only when `want` has the same children in another order
+    if tkey((a[0], ())) != tkey((b[0], ())) or len(a[1]) != len(b[1]):
+      return None
+    pool = list(range(len(a[1])))
+    order = []
+    for c in b[1]:
+      hit = [i for i in pool if tkey(a[1][i]) == tkey(c)]
+      if not hit:
+        return None
+      order.append(hit[0])
+      pool.remove(hit[0])
+    old = list(nd.children)
+    nd.rebind(children=[old[i] for i in order])
+    return (f'n = {_node_src(p)}; old = list(n.children); '
+            f'n.rebind(children=[old[i] for i in {order!r}])\n')
+  raise ValueError(style)
+
+
+def _as_single(rec_):
+  """Model of the decision point a record's node answers on its own."""
+  mm = rec_.m
+  if mm[0] == 'choices' and rec_.parent is not None:
+    return ('choices', 1, mm[2], True, False, mm[5], mm[6])
+  return mm
+
+
+def drv_binding_history(tier, seed):
+  rec = Recorder(
+      PROP, 'a DNA is aligned after use_spec whatever happened to the object '
+      'before',
+      scope=('14 specs (several root elements, conditional, multi-choices of '
+             'every kind, nested multi-choices, floats, custom, bare root) x '
+             'members (quick 2, thorough 8) x histories: (a) a binding that is '
+             'refused (one corruption per kind of c11.corruptions: value out '
+             'of range / wrong type / None, float out of range, dropped, '
+             'extra, swapped and duplicated children ...), the object is '
+             'repaired (in place via rebind(value=/children=), by replacing '
+             'the node, or by re-ordering the already bound children) and '
+             'bound again; (b) a bound DNA is edited into another member and '
+             'bound again to the same spec; (c) bound to / refused by another '
+             'spec (wider spec, unrelated spec, equal spec object) first; (d) '
+             'assembled from children that are already bound (to this spec, to '
+             'an equal spec object).  After the final successful use_spec: '
+             'node.spec identity per position, to_dict vs expectation from raw '
+             'numbers, lookup of every decision, from_dict(to_dict())'))
+  r = rng(seed, 'c12.history')
+  t0 = time.time()
+  budget = 35 if tier == 'quick' else 500
+  n_mem = 2 if tier == 'quick' else 8
+  per_kind = 1 if tier == 'quick' else 3
+  specs = history_specs()
+
+  def final(m, spec, x, source, make_x, key, roundtrip=False):
+    """x.use_spec(spec) must succeed and leave x aligned."""
+    try:
+      x.use_spec(spec)
+    except Exception as e:  # pylint: disable=broad-except
+      rec.case(f'aligned/{source}/accepted', key, False,
+               f'use_spec refused the valid DNA {shape(x)!r}: '
+               f'{type(e).__name__}: {e}'[:400], wit(m, make_x + 'x.use_spec(spec)'))
+      return
+    make_x += 'x.use_spec(spec)\n'
+    if not audit_dna(rec, m, spec, x, source, make_x):
+      return
+    t = shape(x)
+    rs, _ = records(m, spec, t, x)
+    try:
+      ok, msg = True, ''
+      for r_ in rs:
+        got = norm_value(x[r_.dp])
+        want = ('dna', tkey(r_.node)) if r_.active else None
+        if got != want:
+          ok, msg = False, f'x[{r_.dp.id.path!r}] = {got!r}, want {want!r}'
+          break
+      if ok and roundtrip:
+        back = pg.DNA.from_dict(x.to_dict(), spec)
+        ok = same(shape(back), t)
+        msg = f'from_dict(x.to_dict()) = {shape(back)!r}, want {t!r}'
+    except Exception as e:  # pylint: disable=broad-except
+      ok, msg = False, f'{type(e).__name__}: {e}'[:300]
+    rec.case(f'views/{source}', key, ok, msg, wit(
+        m, make_x + f'y = D.from_numbers({flat(t)!r}, spec)\n'
+        'for dp in spec.decision_points:\n'
+        '  assert x[dp] == y[dp], (dp.id.path, x[dp], y[dp])\n'
+        'assert D.from_dict(x.to_dict(), spec) == x'))
+
+  for si, m in enumerate(specs):
+    if time.time() - t0 > budget:
+      break
+    spec = build(m)
+    mem = members(m)
+    other_m = specs[(si + 1) % len(specs)]
+    other = build(other_m)
+    wide = build(widen(m))
+    twin = build(m)
+    for t in sample_members(m, n_mem, r):
+      tsrc = dsrc(t)
+      # which decision point does the node at a path answer (from the model)
+      probe = mk(t)
+      rs0, _ = records(m, spec, t, probe)
+      by_node = {id(r_.real): r_ for r_ in rs0 if r_.real is not None}
+      # ---- (a) refused, repaired, bound again -----------------------------
+      by_kind = {}
+      for kind, bad in corruptions(t):
+        if not accepts(m, bad):
+          by_kind.setdefault(kind, []).append(bad)
+      for kind in sorted(by_kind):
+        for bad in r.sample(by_kind[kind], min(per_kind, len(by_kind[kind]))):
+          p = diff_path(bad, t)
+          # Is the edited node, taken alone, a valid answer of its decision
+          # point (the DNA was refused for a constraint among siblings)?  Then
+          # an in-place repair edits a node that was bound successfully.
+          at = by_node.get(id(_node_at(probe, p)))
+          alone_ok = at is not None and why_not_dp(
+              _as_single(at), _get_tree(bad, p)) is None
+          for style in ('in-place', 'replace-node', 'reorder-bound-children'):
+            x = mk(bad)
+            if not same(shape(x), bad):
+              break                      # normalised by the constructor
+            try:
+              x.use_spec(spec)
+              break                      # not refused: C11's business
+            except Exception:  # pylint: disable=broad-except
+              pass
+            try:
+              etxt = edit_to(x, bad, t, style)
+            except Exception:  # pylint: disable=broad-except
+              continue                   # this edit is not possible
+            if etxt is None or not same(shape(x), t):
+              continue
+            if style == 'reorder-bound-children':
+              source = 'use_spec[after-refused-binding+reordered-bound-children]'
+            elif style == 'in-place' and alone_ok:
+              source = 'use_spec[again-after-edit-of-bound-node]'
+            else:
+              source = 'use_spec[after-refused-binding+repair]'
+            make_x = (f'x = {dsrc(bad)}\n'
+                      'try:\n  x.use_spec(spec)\nexcept Exception: pass\n'
+                      + etxt)
+            final(m, spec, x, source, make_x, (src(m), t, kind, style),
+                  roundtrip=(style == 'in-place'))
+      # ---- (b) bound, edited into another member, bound again -------------
+      for t1 in r.sample(mem, min(2, len(mem))):
+        for style in ('in-place', 'replace-node'):
+          x = mk(t).use_spec(spec)
+          try:
+            etxt = edit_to(x, t, t1, style)
+          except Exception:  # pylint: disable=broad-except
+            continue
+          if etxt is None or not same(shape(x), t1):
+            continue
+          final(m, spec, x, 'use_spec[again-after-edit-of-bound-node]',
+                f'x = {bind_src(t)}\n' + etxt, (src(m), t, t1, style))
+      # ---- (c) another spec first -----------------------------------------
+      x = mk(t).use_spec(wide)
+      final(m, spec, x, 'use_spec[after-binding-to-wider-spec]',
+            f'x = {tsrc}.use_spec({src(widen(m))})\n', (src(m), t),
+            roundtrip=True)
+      x = mk(t).use_spec(twin)
+      final(m, spec, x, 'rebind-to-other-spec-object',
+            f'x = {tsrc}.use_spec({src(m)})\n', (src(m), t))
+      if not has_kind(other_m, 'custom'):
+        x = mk(t)
+        try:
+          x.use_spec(other)
+          source = 'use_spec[after-binding-to-unrelated-spec]'
+        except Exception:  # pylint: disable=broad-except
+          source = 'use_spec[after-refused-binding-to-unrelated-spec]'
+        final(m, spec, x, source,
+              f'x = {tsrc}\ntry:\n  x.use_spec({src(other_m)})\n'
+              'except Exception: pass\n', (src(m), t))
+      # ---- (d) assembled from bound children ------------------------------
+      if t[1]:
+        for label, sp_, ssrc in (('this-spec', spec, 'spec'),
+                                 ('equal-spec-object', twin, src(m))):
+          donor = mk(t).use_spec(sp_)
+          x = pg.DNA(t[0], list(donor.children))
+          if not same(shape(x), t):
+            continue
+          final(m, spec, x, f'use_spec[children-already-bound-to-{label}]',
+                f'donor = {tsrc}.use_spec({ssrc})\n'
+                f'x = D({t[0]!r}, list(donor.children))\n', (src(m), t))
+  return rec.result()
+
+
+DRIVERS = [drv_numbers_and_json, drv_dict_views, drv_alignment,
+           drv_literal_forms, drv_operator_matrix, drv_binding_history]
 
 
 def replay(rec):
